@@ -1124,7 +1124,7 @@ def plan(quick: bool) -> Tuple[Any, ...]:
                   (5, 1, (0, 1), False, False, 4)]
         xspaces = [(1, 2, (0, 1, 4), 4, None, 1), (2, 2, (0, 1, 2, 4), 4, None, 1), (3, 1, (0, 1, 2, 4), 4, None, 1),
                    (4, 1, (0, 1, 4), 4, 1, 2)]
-        pspaces = [(2, 2, (0, 1, 2)), (3, 1, (0, 1, 2, 3)), (4, 1, (0, 1))]
+        pspaces = [(2, 2, (0, 1, 2)), (3, 1, (0, 1, 2, 3))]
         rspaces = [(1, 2, (0, 1, 2, 3), True, True, None), (2, 2, (0, 1, 2, 3), True, True, None), (3, 1, (0, 1, 2, 3), True, True, None),
                    (3, 2, (0, 1), False, True, None), (2, 2, (0, 1, 4), False, True, 4)]
         sspaces = [(2, 2, (0, 1, 3, 4)), (3, 1, (0, 1, 3, 4))]
